@@ -484,11 +484,31 @@ func c09Count(r *core.Run) {
 			if len(elems) != 1 {
 				return
 			}
-			sv, ok := core.StructLitField(elems[0], "Status")
-			if !ok {
-				return
+			// the entry is a literal, or the result of a helper that returns such a literal on every path
+			statusOf := func(v ssa.Value) (string, bool) {
+				if sv, ok := core.StructLitField(v, "Status"); ok {
+					return core.ConstString(sv)
+				}
+				if c, ok := v.(*ssa.Call); ok {
+					if g := core.StaticCallee(&c.Call); g != nil && p.IsProdFunc(g) && g.Blocks != nil {
+						out, okAll := "", true
+						for _, ret := range core.Returns(g) {
+							sv, ok := core.StructLitField(ret.Results[0], "Status")
+							cs, isC := "", false
+							if ok {
+								cs, isC = core.ConstString(sv)
+							}
+							if !isC || (out != "" && out != cs) {
+								okAll = false
+							}
+							out = cs
+						}
+						return out, okAll && out != ""
+					}
+				}
+				return "", false
 			}
-			s, isC := core.ConstString(sv)
+			s, isC := statusOf(elems[0])
 			if !isC || (s != "added" && s != "removed") {
 				return
 			}
